@@ -261,13 +261,20 @@ pub fn run(ctx: &Ctx) -> (Acc, Report) {
             continue;
         }
         // self-check of the harness: every base request is an honest one - delivered to the backend and answered 2xx
-        if !want.starts_with("200|") && !want.starts_with("204|") {
-            machinery_failure(&format!("C09: base request {} is not an honest request: {}", b.kind, want.chars().take(120).collect::<String>()));
+        // (recorded, not fatal: a changed tree may refuse an honest request - that is for the checks of acceptance to report)
+        if want.starts_with("200|") || want.starts_with("204|") {
+            acc.count("base_requests_confirmed_honest(delivered and answered 2xx)", 1);
+        } else {
+            acc.count(&format!("BASE REQUEST NOT ANSWERED 2xx: {}: {}", b.kind, want.chars().take(80).collect::<String>()), 1);
         }
         // self-check: the default schedule executed twice observes the same thing
         let (again, _) = run_one(b, Schedule { cuts: vec![], ins: vec![] }.steps(&b.body));
         if again != want {
-            machinery_failure(&format!("C09: default schedule of {} is not deterministic", b.kind));
+            // the same request under the same schedule, twice: the harness owns every source of nondeterminism (checked on the
+            // unchanged tree by every run), so a difference comes from the code under test - an outcome that depends on
+            // something that is neither the request nor its framing
+            acc.fail(&format!("C09/{}/same-schedule-two-outcomes", b.kind), 0, format!("{}/default-twice", b.kind), format!("the default schedule executed twice gave {:?} and {:?}", want.chars().take(200).collect::<String>(), again.chars().take(200).collect::<String>()), json!({}));
+            continue;
         }
         acc.sample(sizes.len() as u64, json!({"kind": b.kind, "request": b.req.describe(), "default_outcome": want.chars().take(300).collect::<String>()}));
         let judge = |a: &mut Acc, sid: String, order: u64, steps: Vec<Step>, min_cut: Option<usize>| {
